@@ -227,6 +227,14 @@ def stage_cases(ctx):
                 if r != 2:
                     started = False
         lines.append("end")
+        # the applied-parameter comparison and the all-at-once setter are modelled without a dictionary in play (a dictionary's size enters the derivation, and
+        # ZSTD_CCtx_setParametersUsingCCtxParams is refused while a CDict is attached): once a history has touched a dictionary, those two ops are not issued
+        seen_dict = False
+        for j_, ln_ in enumerate(lines):
+            if ln_ in ("dict", "prefix", "cdict"):
+                seen_dict = True
+            elif seen_dict and (ln_.startswith("applied") or ln_ == "papply"):
+                lines[j_] = "reset 1"
         cases.append(("random stage c-seq", lines))
     return cases
 
